@@ -366,7 +366,12 @@ func run(h history, period time.Duration, crashAt int, own, foreign []string, tr
 			for n, v := range local {
 				m.unacked(n, v)
 			}
+			// the limiter retries Stop until it succeeds (stopLimitStoreWithRetry); so does the history, up to 3 times
 			err := store.Stop()
+			for attempt := 1; err != nil && attempt < 3; attempt++ {
+				*trace = append(*trace, "stop->false")
+				err = store.Stop()
+			}
 			*trace = append(*trace, fmt.Sprintf("stop->%v", err == nil))
 			if err == nil {
 				p := sim.persisted()
@@ -554,7 +559,7 @@ func TestPropWriteThroughCrashes(t *testing.T) {
 
 // TestPropPeriodicGracefulStop: periodic mode; a graceful stop flushes every pending condition; deletes are immediate.
 func TestPropPeriodicGracefulStop(t *testing.T) {
-	sub := stats.NewSub("periodic-graceful-stop", "rapid: the same op histories on the store in periodic mode (period 1 h, only Flush/Stop write), API faults by call index, always ended by a graceful stop; oracle: Flush()==nil / Stop()==nil => the API holds every local condition with its latest value; acknowledged deletes are gone from the API at once; foreign-shard saves refused; takeover loads exactly the shard's persisted conditions; non-trivial = history has a save that is only persisted by the stop, or a fault; distinct by FNV-64 of (history, faults)")
+	sub := stats.NewSub("periodic-graceful-stop", "rapid: the same op histories on the store in periodic mode (period 1 h, only Flush/Stop write), API faults by call index, always ended by a graceful stop that is retried up to 3 times when it fails (as the limiter does); oracle: Flush()==nil / Stop()==nil => the API holds every local condition with its latest value; acknowledged deletes are gone from the API at once; foreign-shard saves refused; takeover loads exactly the shard's persisted conditions; non-trivial = history has a save that is only persisted by the stop, or a fault; distinct by FNV-64 of (history, faults)")
 	stats.Check(t, stats.N(800, 4000), func(t *rapid.T) {
 		n := rapid.IntRange(2, 3).Draw(t, "N")
 		shard := rapid.IntRange(0, n-1).Draw(t, "shard")
